@@ -1,4 +1,4 @@
-//go:build linux
+//go:build linux && verif
 
 // Package c16 decides C16: goroutines that decorate and restore different files at the same time,
 // each with its own decorator and restorer, optionally sharing one syntax-based identifier
@@ -28,6 +28,7 @@ import (
 	"io/ioutil"
 	"os"
 	"path/filepath"
+	"runtime"
 	"sort"
 	"strings"
 
@@ -36,6 +37,7 @@ import (
 	"github.com/dave/dst/decorator/resolver"
 	"github.com/dave/dst/decorator/resolver/goast"
 	"github.com/dave/dst/decorator/resolver/guess"
+	"golang.org/x/tools/go/packages"
 
 	"verifsim/core"
 	"verifsim/corpus"
@@ -103,6 +105,7 @@ const (
 	pipePlain = iota
 	pipeManagedDecorate
 	pipeManagedParse
+	pipeSave // a decorator.Package whose FileSet is shared with the other workers' packages (as the packages of one decorator.Load share theirs), saved to a private disk
 	numPipeKinds
 )
 
@@ -160,6 +163,7 @@ type opResult struct {
 type env struct {
 	ident resolver.DecoratorResolver // shared (or private in the reference)
 	name  resolver.RestorerResolver
+	fset  *token.FileSet // the FileSet "loaded" packages share (private in the reference)
 }
 
 func errClass(err error) string {
@@ -240,6 +244,30 @@ func execOnce(p pipeSpec, e env, y func(string), out *[]opResult, shared *parsed
 			err = decorator.Fprint(&buf, f)
 		}
 		*out = append(*out, opResult{Op: "print", Out: buf.String(), Err: errClass(err)})
+		return
+	}
+	if p.kind == pipeSave {
+		yield("op:load")
+		fset := e.fset
+		if fset == nil {
+			fset = token.NewFileSet()
+		}
+		dec := decorator.NewDecoratorWithImports(fset, LocalPath, &faults.Ident{Inner: e.ident, Yield: y})
+		f, err := dec.ParseFile("/sim/w/"+dump.HashString(p.src)+".go", p.src, 0)
+		if err != nil {
+			*out = append(*out, opResult{Op: "load", Err: errClass(err)})
+			return
+		}
+		edits.Apply(f, p.script)
+		pkg := &decorator.Package{Package: &packages.Package{PkgPath: LocalPath, Fset: fset}, Dir: "/sim/w", Decorator: dec, Syntax: []*dst.File{f}}
+		yield("op:save")
+		disk := faults.NewDisk()
+		err = pkg.VerifSave(&faults.Pkg{Inner: e.name, Yield: y}, disk.WriteFile)
+		var written strings.Builder
+		for _, rec := range disk.Journal {
+			written.WriteString(filepath.Base(rec.Path) + "\n" + string(rec.Data))
+		}
+		*out = append(*out, opResult{Op: "save", Out: written.String(), Err: errClass(err)})
 		return
 	}
 	yield("op:decorate")
@@ -397,6 +425,22 @@ type wstate struct {
 	done  chan struct{}
 }
 
+// goid parses the current goroutine's id from its stack header (slow: used once per worker and on
+// the abort path only).
+func goid() string {
+	buf := make([]byte, 64)
+	buf = buf[:runtime.Stack(buf, false)]
+	f := strings.Fields(string(buf))
+	if len(f) >= 2 {
+		return f[1]
+	}
+	return ""
+}
+
+var workerGoids = map[string]bool{} // written by the engine goroutine before Go(), read on abort
+
+func isWorkerGoroutine() bool { return workerGoids[goid()] }
+
 var (
 	fineAvailable bool      // the binary was built against the yield-instrumented copy of /repo
 	fineMode      bool      // this run uses function-entry decision points
@@ -414,7 +458,7 @@ type concResult struct {
 func concurrentPhase(run *core.Run, w *workload, cfg sched.Config, fine bool, opOnly ...bool) concResult {
 	boundaryOnly := len(opOnly) > 0 && opOnly[0]
 	nworkers := len(w.workers)
-	shared := env{ident: newIdentResolver(w.identKind, w.failPaths), name: faults.NameResolver(w.nameKind, gen.Truth())}
+	shared := env{ident: newIdentResolver(w.identKind, w.failPaths), name: faults.NameResolver(w.nameKind, gen.Truth()), fset: token.NewFileSet()}
 	s := theSched
 	s.Reset(cfg)
 	ws := make([]*wstate, nworkers)
@@ -423,12 +467,15 @@ func concurrentPhase(run *core.Run, w *workload, cfg sched.Config, fine bool, op
 	}
 	curWorkers = ws
 	fineMode = fine
+	workerGoids = map[string]bool{}
+	idCh := make(chan string, nworkers)
 	for i := range ws {
 		i := i
 		st := ws[i]
 		ps := w.workers[i]
 		go func() {
 			defer close(st.done)
+			idCh <- goid()
 			aborted := false
 			st.pi = core.Catch(func() {
 				defer func() {
@@ -457,6 +504,9 @@ func concurrentPhase(run *core.Run, w *workload, cfg sched.Config, fine bool, op
 				s.Finish(i)
 			}
 		}()
+	}
+	for range ws {
+		workerGoids[<-idCh] = true
 	}
 	s.Go(cfg.First)
 	doneMask, aborted := s.AwaitAll()
@@ -504,7 +554,7 @@ func runScheduled(run *core.Run) {
 			var alias map[string]string
 			var extras, have bool
 			for j := range ps {
-				if ps[j].kind == pipePlain {
+				if ps[j].kind == pipePlain || ps[j].kind == pipeSave {
 					continue
 				}
 				if !have {
@@ -633,9 +683,22 @@ func runScheduled(run *core.Run) {
 			run.Fail("c16/race", "unparsed", "the race detector reported %d race(s) but the report text could not be parsed", n)
 			return
 		}
-		r := reps[0]
-		run.Fail("c16/race", r.Sig, "data race between caller goroutines that share only what C16 allows:\n%s", r.Text)
-		return
+		var r *raceorc.Report
+		for i := range reps {
+			if reps[i].Sig != "outside-dst<->outside-dst" {
+				r = &reps[i]
+				break
+			}
+		}
+		if r == nil {
+			// no dst frame on either side of any report: a race inside the harness itself (possible
+			// only if dst starts goroutines of its own, which then run the harness's hooks). It says
+			// nothing about dst's accesses; counted so that it shows in the evidence, never judged.
+			run.Add("race-reports-without-dst-frames", int64(len(reps)))
+		} else {
+			run.Fail("c16/race", r.Sig, "data race between caller goroutines that share only what C16 allows:\n%s", r.Text)
+			return
+		}
 	}
 	// ---- isolated reference: every worker's pipelines alone, with PRIVATE resolver instances,
 	// run AFTER the concurrent phase so that it cannot warm up (and thereby hide first-use races
@@ -747,7 +810,7 @@ func runRepeat(run *core.Run) {
 	}
 	conflicts := true
 	p := drawPipe(run, conflicts)
-	if p.kind == pipePlain {
+	if p.kind == pipePlain || p.kind == pipeSave {
 		p.kind = pipeManagedDecorate
 		p.script = edits.Script(t, 3, true)
 	}
